@@ -1054,9 +1054,10 @@ class StreamSummary(StreamResult):
             content = case._details["reason"]
             try:
                 reason = content.as_text()
-            except ValueError:
-                # Not a text attachment, or not decodable: record the skip
-                # with the raw bytes rather than failing to record it.
+            except (ValueError, LookupError):
+                # Not a text attachment, or not decodable (LookupError: unknown
+                # charset): record the skip with the raw bytes rather than
+                # failing to record it.
                 reason = repr(b"".join(content.iter_bytes()))
         self.skipped.append((case, reason))
 
@@ -2235,7 +2236,14 @@ def _details_to_str(details, special=None):
         if content.content_type.type != "text":
             binary_attachments.append((key, content.content_type))
             continue
-        text = content.as_text().strip()
+        try:
+            text = content.as_text().strip()
+        except (UnicodeDecodeError, LookupError):
+            # Declared as text but not decodable in its charset (or the charset
+            # is not a codec we know): list it with the binary attachments
+            # rather than failing to report the test.
+            binary_attachments.append((key, content.content_type))
+            continue
         if not text:
             empty_attachments.append(key)
             continue
